@@ -472,6 +472,7 @@ def c10(tier):
     sp.sp7(P, C)
     # entries of the normal matrix are dropped only below machine epsilon; the right-hand side has a value in every entry
     sp.sp8(P, C)
+    sg.sg10(P, C)
     gw.gw9(P, C)
     # clause 2 (inactive constraint returns the unconstrained fit) needs the solver to run to its optimum
     sg.sg7(P, C)
@@ -515,6 +516,7 @@ def c11(tier):
     sp.sp6(P, C)
     sp.sp7(P, C)
     sp.sp8(P, C)
+    sg.sg10(P, C)
     # 'terminates and returns the optimum': leaving the outer loop on the iteration cap is not convergence
     sg.sg9(P, C)
     return C.finish()
@@ -584,6 +586,8 @@ def c19(tier):
     C.extra["model_terms"] = nt
     C.extra["owned_pointer_stores"] = n
     C.extra["units"] = sorted(P.units.keys())
+    # every request goes through two helpers: they ask the allocator for exactly what the model counts
+    sm.sm9(P, C)
     return C.finish()
 
 
